@@ -23,6 +23,8 @@ int rank_chop(torch::Tensor s, double eps)
     if (eps <= 0.0)
         return r;
 
+    // the loop below reads doubles: single precision singular values (float32 / complex64 operands) are converted first
+    s = s.to(torch::kFloat64).contiguous();
     double *ss = (double *)s.data_ptr();
 
     while (r > 0)
